@@ -340,6 +340,17 @@ pub fn make_case(prop: &str, seed: u64) -> Case {
             case.yield_prob = *rng.pick(&[0.2, 0.5, 1.0, 1.0]);
             case.policy = rng.pick(&["random", "random", "pct", "eager_bg"]).to_string();
         }
+        "C20" => {
+            case.knobs.messages_required_to_save = *rng.pick(&[1, 3, 10, 1000]);
+            case.knobs.segment_size = *rng.pick(&[1024, 65536, 8 * 1024 * 1024]);
+            case.knobs.no_wait = false;
+            case.knobs.dedup = false;
+            case.settle_each = false;
+            case.yield_prob = *rng.pick(&[0.0, 0.2, 0.5]);
+            // the SDK paces itself by comparing IggyTimestamp::now() with timer sleeps: the wall clock must
+            // not run ahead of the timer clock, so no per-read tick here
+            case.auto_tick = 0;
+        }
         "C12" => {
             case.knobs.segment_size = *rng.pick(&[400, 1024, 4096, 65536, 8 * 1024 * 1024]);
             case.knobs.messages_required_to_save = *rng.pick(&[1, 2, 3, 5, 10, 50, 1000]);
@@ -349,6 +360,25 @@ pub fn make_case(prop: &str, seed: u64) -> Case {
             case.settle_each = false;
             case.yield_prob = *rng.pick(&[0.2, 0.5, 0.8, 1.0]);
             case.policy = rng.pick(&["random", "random", "pct", "starve_bg", "eager_bg"]).to_string();
+        }
+        "C19" => {
+            use base64::Engine;
+            case.knobs.encryption = !rng.chance(0.1);
+            let key: Vec<u8> = rng.bytes(32);
+            case.knobs.encryption_key = base64::engine::general_purpose::STANDARD.encode(key);
+            case.gen.topics = 1 + rng.below(2) as u32;
+            case.gen.partitions = 1 + rng.below(2) as u32;
+            case.gen.ops = 20 + rng.below(80) as u32;
+            case.gen.clients = 1 + rng.usize_below(2);
+            case.gen.payload_lens = vec![1, 5, 11, 12, 13, 16, 40, 200, 1000];
+            case.gen.header_chance = 0.3;
+            let mut mix = Mix { send: 40, poll: 15, flush: 6, job_save: 5, restart_clean: 6, restart_flush_kill: 2, key_mismatch: 4, purge: 1, tick: 3, audit: 8, catalogue: 10, users: 4, groups: 3, store_offset: 2, get_topic: 2, ..Default::default() };
+            perturb(&mut rng, &mut mix);
+            mix.send = mix.send.max(20);
+            mix.audit = mix.audit.max(4);
+            mix.key_mismatch = mix.key_mismatch.max(2);
+            case.gen.mix = mix;
+            log_setup(&mut case, &mut rng);
         }
         "C07" => {
             case.gen.topics = 1 + rng.below(2) as u32;
